@@ -114,6 +114,17 @@ def _customise(style, what, value):
         style.padding_char = value
     elif what == "border_colour":
         style.border_style.style = Style().fg(value)
+    elif what in ("cell_style", "header_style", "border_recolour"):
+        # value = [colour, bold, in_place]: in place edits the Style object the table style already
+        # holds (what `style.cell_style.fg("blue").bold()` does), otherwise a new object replaces it
+        holder, attr = {"cell_style": (style, "cell_style"), "header_style": (style, "header_cell_style"),
+                        "border_recolour": (style.border_style, "style")}[what]
+        cur = getattr(holder, attr)
+        if cur is None or not value[2]:
+            cur = Style()
+            setattr(holder, attr, cur)
+        cur.fg(value[0])
+        cur.bold(bool(value[1]))
 
 
 def _table(style, rows, header):
@@ -267,7 +278,8 @@ def gen(S, tier):
             tail, _, _ = apptree.gen_line(w, chain)
             k = w.weighted([("valid", 5), ("unknown_option", 1.5), ("surplus", 1), ("missing", 1), ("unknown_command", 1),
                             ("help_cmd", 1), ("help_path", 2), ("path_help", 2), ("dash_h", 1), ("version", 1), ("switch", 1),
-                            ("path_only", 1.5)])
+                            ("path_only", 1.5), ("bare_unknown_option", 0.8), ("help_unknown_option", 0.8),
+                            ("same_unknown_option", 0.8)])
             if k == "valid":
                 toks = p + tail
             elif k == "unknown_option":
@@ -280,6 +292,14 @@ def gen(S, tier):
                 toks = ["nosuch"] + tail
             elif k == "help_cmd":
                 toks = ["help"]
+            elif k == "bare_unknown_option":
+                toks = ["--nope"]               # no command: parsed by the default command
+            elif k == "help_unknown_option":
+                toks = ["help"] + w.pick([[], p]) + ["--nope"]
+            elif k == "same_unknown_option" and lines:
+                # a failing line for a command that an earlier line of this history also addressed
+                prev = lines[w.randrange(len(lines))][1]
+                toks = [t for t in prev if t != "--nope"] + ["--nope"]
             elif k == "help_path":
                 toks = ["help"] + p
             elif k == "path_help":
@@ -305,11 +325,15 @@ def gen(S, tier):
                 ops.append(["make", n_styles, w.pick(STYLES + ["default"])])
                 n_styles += 1
             elif k == "customise":
-                what = w.pick(["hc", "vc", "crossing", "corner", "cell_format", "header_format", "align", "padding", "border_colour"])
+                what = w.pick(["hc", "vc", "crossing", "corner", "cell_format", "header_format", "align", "padding", "border_colour",
+                               "cell_style", "cell_style", "header_style", "border_recolour"])
                 value = {"hc": w.pick(["=", "~", ""]), "vc": w.pick(["|", " ", "!"]), "crossing": w.pick(["+", "*", ""]),
                          "corner": w.pick(["#", "o"]), "cell_format": w.pick(["[{}]", " {} ", "{}"]),
                          "header_format": w.pick(["<b>{}</b>", " {} "]), "align": [w.randrange(len(rows[0])), w.randrange(3)],
-                         "padding": w.pick([".", " "]), "border_colour": w.pick(["red", "blue"])}[what]
+                         "padding": w.pick([".", " "]), "border_colour": w.pick(["red", "blue"]),
+                         "cell_style": None, "header_style": None, "border_recolour": None}[what]
+                if value is None:
+                    value = [w.pick(["red", "blue", "green"]), w.chance(0.5), w.chance(0.7)]
                 ops.append(["customise", w.randrange(n_styles), what, value])
             else:
                 ops.append(["render", w.randrange(n_styles)])
@@ -494,6 +518,9 @@ def _exec_style(sc, res):
                 _customise(styles[op[1]], op[2], op[3])
                 if len(styles) > 1:
                     res.probe("style_customised_after_sibling")
+                if op[2] in ("cell_style", "header_style", "border_recolour") and op[3][2] and \
+                        any(o[0] == "render" and o[1] == op[1] for o in sc["ops"][:i]):
+                    res.probe("style_object_edited_in_place_after_render")
             elif k == "render":
                 if op[1] not in styles:
                     continue
